@@ -213,6 +213,7 @@ func (g *Gen) GenShape(cfg ShapeCfg) {
 		sc.SharedMW = []string{"s0", "s1"} // see GenShape: some routes are registered with exactly this list
 	}
 	sc.Options.EncodedPath = rng.Chance(1, 10)
+	sc.Options.Wrapped = rng.Chance(1, 10)
 	if cfg.FallbackOpts {
 		sc.Options.NotAllowed = rng.Chance(1, 2)
 		sc.Options.Fallback = rng.Chance(1, 8)
